@@ -202,7 +202,8 @@ type ovGroup struct {
 	Pkgs   []stated
 }
 
-var moduleStreams = []string{"nodejs:12", "nodejs:14", "container-tools:rhel8", "postgresql:10", "php:7.4", "virt:rhel", "idm:DL1"}
+// the last one makes the comment "Module … is enabled" contain " is enabled" twice (the regexp's `.*` is greedy)
+var moduleStreams = []string{"nodejs:12", "nodejs:14", "container-tools:rhel8", "postgresql:10", "php:7.4", "virt:rhel", "idm:DL1", "mariadb:10.3 is enabled and Module mariadb-devel:10.3"}
 
 // rpmCriteria builds the criteria tree of one rpm-flavoured definition from its
 // module groups: OR[ platform noise, AND[ module criterion, OR[ AND[pkg, signed] ... ] ] ... ].
